@@ -1116,9 +1116,12 @@ public:
                    "disabled";
     cov["components"] = comp;
     cov["fault_kinds"] =
-        "preemption at every AtomicValue operation and optional plain-read "
-        "points (policies uniform/burst/pct/rr), task stealing, premature "
-        "launch, buffer overflow";
+        "preemption at every AtomicValue operation, at optional plain-read "
+        "points and (60 % of the runs) at every packet and task event inside "
+        "task bodies (policies uniform/burst/pct/rr), task stealing, "
+        "premature launch, buffer overflow; 35 % of the multi-threaded C01 / "
+        "C12 runs with buffer and task pools reduced to twice the measured "
+        "need (slot indices wrap, freed slots are reused at once)";
     assumptions.push("pool/queue capacities are generated above the possible "
                      "need (the property's premise)");
     assumptions.push("sequential consistency at the granularity of "
